@@ -164,6 +164,8 @@ def units(tier, seed=0):
                 if tracked:
                     if name not in ('pop_back', 'clear', 'erase', 'dtor', 'emplace_back', 'subscript', 'copy_assign', 'move_assign'):
                         continue
+                    if name in ('copy_assign', 'move_assign') and len(L.params) > 1:
+                        continue   # exceeds the memory budget for mixed lists
                     props = sorted(set(props + ['C06']))
                     repl = [r for r in repl if r not in ('EMPLACE',)]
                     extra = dict(extra); extra['unwind'] = 4; extra['kind'] = 'bounded(capacity 2, span items <= 2, loops unwound)'
